@@ -14,7 +14,7 @@ for i in sorted(os.listdir(os.path.join(V, "seeded"))):
     r = res.get(i, {})
     cls = (r.get("classes") or [""])[0]
     cls = cls.split("):")[0].replace("(", "").replace("'", "") if cls else ""
-    rows.append(f"| `{i}` | {m['breaks_property']} | {m['needs_to_manifest']} | {'**caught**' if r.get('caught') else ('not run' if not r else '**MISSED**')} by {r.get('checked_with', m['breaks_property'])} ({r.get('tier', '-')}, {r.get('wall_s', '-')} s) | {cls} |")
+    rows.append(f"| `{i}` | {m['breaks_property']} | {m['needs_to_manifest']} | {'**caught**' if r.get('caught') else ('not run' if not r else ('not caught (by construction, see meta.json)' if m.get('expected') == 'missed' else '**MISSED**'))} by {r.get('checked_with', m['breaks_property'])} ({r.get('tier', '-')}, {r.get('wall_s', '-')} s) | {cls} |")
 table = "| seeded change | property | needs, to manifest | registered check | first violation class reported |\n|---|---|---|---|---|\n" + "\n".join(rows)
 p = os.path.join(V, "DESIGN.md")
 s = open(p).read()
